@@ -215,6 +215,7 @@ struct C05 : Scenario {
         fs::begin_run(root);
         Model m = generate_model(static_cast<std::uint64_t>(plan.geti("model_seed")), GenOpts::from_json(plan.at("gen")));
         if (plan.has("drops")) apply_drops(m, plan.at("drops"));
+        kw_histogram(m, r.counters);
         const bool probe = plan.has("probe");
         if (probe) {
             const std::string wn = m.wells[0].name;      // the first well is always an oil producer
@@ -389,8 +390,8 @@ struct C05 : Scenario {
             if (!c.failed) {
                 for (int k = n; k <= last && !c.failed; ++k) {
                     const auto& stA = recA.st.count(std::max(k, 1)) ? recA.st.at(std::max(k, 1)) : *A->st;
-                    auto da = dump_state(*A->sched, static_cast<size_t>(k), stA, DumpOpts{false, true, true, false, true, false, true});
-                    auto db = dump_state(*B->sched, static_cast<size_t>(k), stA, DumpOpts{false, true, true, false, true, false, true});
+                    auto da = dump_state(*A->sched, static_cast<size_t>(k), stA, DumpOpts{false, true, true, false, true, false, true, false});
+                    auto db = dump_state(*B->sched, static_cast<size_t>(k), stA, DumpOpts{false, true, true, false, true, false, true, false});
                     std::string cls; std::string d = diff_dumps(da, db, true, cls);
                     c.n += static_cast<long>(da.size());
                     oh.u64(hash_dump(db));
